@@ -332,6 +332,14 @@ Theorem C15_kriging_matrix_pd : forall n Qm rows var,
 Proof. exact krig_matrix_pd. Qed.
 Print Assumptions C15_kriging_matrix_pd.
 
+(* several structures on their meshings: the block-diagonal precision of positive definite blocks is positive definite, so the
+   two theorems around it apply to Q = diag(Q_1, ..., Q_k), A = [A_1 | ... | A_k] and R = any positive diagonal (one variance
+   per datum: measurement-error variances of the locator V, or setVarianceDataVector) *)
+Theorem C15_block_precision_pd : forall blocks,
+  Forall (fun b => fpd (fst b) (get (snd b))) blocks -> fpd (block_size blocks) (get (block_diag_mat blocks)).
+Proof. exact block_diag_mat_pd. Qed.
+Print Assumptions C15_block_precision_pd.
+
 (* the conditional mean returned by the model solves (Q + A^T R^-1 A) z = A^T R^-1 y exactly, and it is the only solution:
    the implementation's Cholesky and conjugate-gradient results are compared with it *)
 Theorem C15_kriging_solution : forall n Qm rows var y z,
@@ -473,5 +481,29 @@ Proof.
     intros i Hi. destruct i as [|[|[|[|?]]]]; try lia; vm_compute; discriminate.
   - apply (C15_Q_spd_matern 2 4 ex_A [2; 1] (1 # 2) ex_fe_meshes _ [1; 2; 2; 1] [1; 1; 2; 1] 2); [lra|vm_compute; reflexivity|].
     intros i Hi. destruct i as [|[|[|[|?]]]]; try lia; vm_compute; discriminate.
+  - vm_compute. eexists. reflexivity.
+Qed.
+
+(* two structures on the same meshing and a different variance for each datum: the block-diagonal precision is positive
+   definite and the kriging system (diag(Q_1, Q_2) + A^T D^-1 A) z = A^T D^-1 y, A = [A_1 | A_2], has its solution *)
+Example C15_nonvacuous_multi_kriging :
+  let Q1 := build_Q 3 ex_S [1; 2; 1 # 2] [1; 2; 1] in
+  let Q2 := build_Q 3 ex_S [2; 1; 1] [1; 1] in
+  let rows := [[(0%Z, 1 # 2); (1%Z, 1 # 2)]; [(2%Z, 1)]] in
+  fpd 6 (get (block_diag_mat [(3%nat, Q1); (3%nat, Q2)])) /\
+  exists z, krig_solve 6 (block_diag_mat [(3%nat, Q1); (3%nat, Q2)])
+                       (multi_rows 2 [(3%nat, rows); (3%nat, rows)] 0) [1 # 4; 3] [1; -1] = Some z.
+Proof.
+  cbv zeta. split.
+  - apply (C15_block_precision_pd [(3%nat, build_Q 3 ex_S [1; 2; 1 # 2] [1; 2; 1]); (3%nat, build_Q 3 ex_S [2; 1; 1] [1; 1])]).
+    constructor; [|constructor; [|constructor]]; cbn [fst snd].
+    + apply C15_Q_pd; [exact ex_S_sym|exact ex_S_psd| | |].
+      * intro k. destruct k as [|[|[|[|?]]]]; vm_compute; discriminate.
+      * vm_compute. reflexivity.
+      * intros i Hi. destruct i as [|[|[|?]]]; try lia; vm_compute; discriminate.
+    + apply C15_Q_pd; [exact ex_S_sym|exact ex_S_psd| | |].
+      * intro k. destruct k as [|[|[|?]]]; vm_compute; discriminate.
+      * vm_compute. reflexivity.
+      * intros i Hi. destruct i as [|[|[|?]]]; try lia; vm_compute; discriminate.
   - vm_compute. eexists. reflexivity.
 Qed.
